@@ -38,7 +38,7 @@ func (c14) Info(tier string) fw.Info {
 	n, m := tierNM(tier)
 	return fw.Info{
 		Level: "exploration",
-		Rule: fmt.Sprintf("programs built to be sensitive to map order (>= 3 modules with shared helper/global naming schemes, objects with 4..12 fields printed whole / as JSON / key lists / through any-objects, many locals and shadowing, scopes with up to 25 unused items, impl blocks with several capabilities and methods, rejected programs whose messages print object types, programs ending in fatal errors with stack traces, singletons, match, objects with 4..12 fields of which 2..4 cannot be encoded as JSON — ranges, functions, non-finite floats, directly / in lists / options / nested objects — passed to to_json / to_json_indent as typed objects, any-objects, in lists and inside other objects, JSON decoding under an object type with several offending members, programs that write in place — option / list / string / number / nested-object fields — into objects whose storage the runtime handed out: default values of singletons of the entry and of an imported module, results of runtime casts, decoded JSON, and print every producer of `none` before and after, programs of 3..5 modules around a module that several others import with 1..4 lines carrying recoverable or critical syntax errors in the shared module / another imported module / the entry), the generated programs of hv/prog and the shipped examples/tests; "+
+		Rule: fmt.Sprintf("programs built to be sensitive to map order (>= 3 modules with shared helper/global naming schemes, objects with 4..12 fields printed whole / as JSON / key lists / through any-objects, many locals and shadowing, scopes with up to 25 unused items, impl blocks with several capabilities and methods, rejected programs whose messages print object types, programs ending in fatal errors with stack traces, singletons, match, objects with 4..12 fields of which 2..4 cannot be encoded as JSON — ranges, functions, non-finite floats, directly / in lists / options / nested objects — passed to to_json / to_json_indent as typed objects, any-objects, in lists and inside other objects, JSON decoding under an object type with several offending members, programs that write in place — option / list / string / number / nested-object fields — into objects whose storage the runtime handed out: default values of singletons of the entry and of an imported module, results of runtime casts, decoded JSON, and print every producer of `none` before and after, programs of 3..5 modules around a module that several others import with 1..4 lines carrying recoverable or critical syntax errors in the shared module / another imported module / the entry, rejected programs with one or two impl blocks — templates whose selected capabilities require 2..8 methods, some with pub / event modifiers and a default capability — in which two or more required methods are faulty at once: missing, one parameter too many / too few, renamed or retyped parameter, other return type, wrong modifier, singleton not extracted, plus additional methods / an unknown capability / an undeclared singleton), the generated programs of hv/prog and the shipped examples/tests; "+
 			"each program is analysed twice, compiled, run on the VM and on the interpreter N=%d times in one process (fewer for programs that execute more than 200k steps), with an unrelated program reusing the same module names run in between, and once more in each of M=%d fresh processes; "+
 			"compared component-wise: syntax errors, sorted diagnostic multiset (level, message, span), the same with notes, VM outcome with the full message and stack trace, VM output, VM host-call log, the same three for the interpreter, canonical dump of the compiler output. "+
 			"non-trivial = at least 3 repetitions completed and the program produced >= 2 diagnostics (syntax errors included) or ran with >= 3 lines of output; distinct = distinct sources", n, m),
@@ -558,7 +558,7 @@ func (c14) Run(c fw.Case) fw.Result {
 		res.Cover = append(res.Cover, "construct:"+TagJsonMixed)
 	}
 	for _, t := range c.Tags {
-		if strings.HasPrefix(t, "cell-") || strings.HasPrefix(t, "syn-") {
+		if strings.HasPrefix(t, "cell-") || strings.HasPrefix(t, "syn-") || strings.HasPrefix(t, "implerr-") {
 			res.Cover = append(res.Cover, "construct:"+t)
 		}
 	}
